@@ -101,6 +101,128 @@ SignIdT == << SignId("TrafficSignIDGermany", "MAX_SPEED", "274", TRUE), SignId("
               SignId("TrafficSignIDUsa", "STOP", "R1-1", FALSE),                             \* neither XSD nor .proto
               SignId("TrafficSignIDSpain", "STOP", "r2", TRUE), SignId("TrafficSignIDSpain", "YIELD", "r1", TRUE),
               SignId("TrafficSignIDChina", "MAX_SPEED", "274", TRUE) >>
+(* every member of TrafficSignIDGermany (= TrafficSignIDZamunda): NAME, value, member of the .proto enum? *)
+G(n, v, pb) == SignId("TrafficSignIDGermany", n, v, pb)
+SignIdGermanyT ==
+<< G("WARNING_DANGER_SPOT", "101", TRUE), G("WARNING_RIGHT_BEFORE_LEFT", "102", TRUE),
+   G("WARNING_LEFT_CURVE", "103-10", TRUE), G("WARNING_RIGHT_CURVE", "103-20", TRUE),
+   G("WARNING_STEEP_HILL_DOWNWARDS", "108", TRUE), G("WARNING_SLIPPERY_ROAD", "114", TRUE),
+   G("WARNING_CONSTRUCTION_SITE", "123", TRUE), G("WARNING_TRAFFIC_QUEUES_LIKELY", "124", TRUE),
+   G("WARNING_ONCOMING_TRAFFIC", "125", TRUE), G("WARNING_TRAFFIC_LIGHTS_AHEAD", "131", TRUE),
+   G("WARNING_PEDESTRIANS_RIGHT", "133-10", TRUE), G("WARNING_PEDESTRIANS_LEFT", "133-20", TRUE),
+   G("WARNING_CROSSING_CYCLIST", "138", TRUE), G("WARNING_ANIMAL_CROSSING_RIGHT", "142-10", TRUE),
+   G("WARNING_LOOSE_GRAVEL", "145-50", TRUE), G("RAILWAY", "201", TRUE), G("YIELD", "205", TRUE),
+   G("STOP", "206", TRUE), G("PRIORITY_OPPOSITE_DIRECTION", "208", TRUE), G("TURN_RIGHT_AHEAD", "209-10", TRUE),
+   G("TURN_LEFT_AHEAD", "209-20", TRUE), G("KEEP_STRAIGHT_AHEAD", "209-30", TRUE),
+   G("PRESCRIBED_DIRECTION_RIGHT", "211-20", TRUE), G("ROUNDABOUT", "215", TRUE), G("ONEWAY_RIGHT", "220-10", TRUE),
+   G("ONEWAY_LEFT", "220-20", TRUE), G("PRESCRIBED_PASSING_LEFT", "222-10", TRUE),
+   G("PRESCRIBED_PASSING_RIGHT", "222-20", TRUE), G("DO_NOT_DRIVE_ON_SHOULDER_LANE", "223.2", TRUE),
+   G("DO_NOT_DRIVE_ON_SHOULDER_LANE_2_LANE", "223.2-50", TRUE),
+   G("DO_NOT_DRIVE_ON_SHOULDER_LANE_3_LANE", "223.2-51", TRUE), G("BUS_STOP", "224-50", TRUE),
+   G("BIKEWAY", "237", TRUE), G("PEDESTRIAN_SIDEWALK", "239", TRUE), G("PEDESTRIAN_AND_BICYCLE_ROAD", "240", TRUE),
+   G("PEDESTRIAN_ZONE_START", "242.1", TRUE), G("PEDESTRIAN_ZONE_END", "242.2", TRUE),
+   G("BICYCLE_ROAD_START", "244.1", TRUE), G("BICYCLE_ROAD_END", "244.2", TRUE), G("BUS_LANE", "245", TRUE),
+   G("BAN_ALL_VEHICLES", "250", TRUE), G("BAN_CARS", "251", TRUE), G("BAN_TRUCKS", "253", TRUE),
+   G("BAN_BICYCLE", "254", TRUE), G("BAN_MOTORCYCLE", "255", TRUE), G("BAN_BUS", "257-54", TRUE),
+   G("BAN_PEDESTRIAN", "259", TRUE), G("BAN_CAR_TRUCK_BUS_MOTORCYCLE", "260", TRUE),
+   G("BAN_VEHICLES_CARRYING_DANGEROUS_GOODS", "261", TRUE), G("MAX_WEIGHT", "262", TRUE), G("MAX_WIDTH", "264", TRUE),
+   G("MAX_HEIGHT", "265", TRUE), G("MAX_LENGTH", "266", TRUE), G("NO_ENTRY", "267", TRUE),
+   G("ENVIRONMENTAL_ZONE_START", "270.1", TRUE), G("ENVIRONMENTAL_ZONE_END", "270.2", TRUE), G("U_TURN", "272", TRUE),
+   G("MAX_SPEED", "274", TRUE), G("MAX_SPEED_ZONE_START", "274.1", TRUE), G("MAX_SPEED_ZONE_END", "274.2", TRUE),
+   G("MIN_SPEED", "275", TRUE), G("NO_OVERTAKING_START", "276", TRUE), G("NO_OVERTAKING_TRUCKS_START", "277", TRUE),
+   G("MAX_SPEED_END", "278", TRUE), G("NO_OVERTAKING_END", "280", TRUE), G("NO_OVERTAKING_TRUCKS_END", "281", TRUE),
+   G("ALL_MAX_SPEED_AND_OVERTAKING_END", "282", TRUE), G("NO_STOP_START_RIGHT", "283-10", TRUE),
+   G("NO_STOP_CENTER_RIGHT", "283-30", TRUE), G("RESTRICTED_STOP_CENTER_RIGHT", "286-30", TRUE),
+   G("RIGHT_OF_WAY", "301", TRUE), G("PRIORITY", "306", TRUE), G("PRIORITY_OVER_ONCOMING", "308", TRUE),
+   G("TOWN_SIGN", "310", TRUE), G("TOWN_SIGN_BACK", "311", TRUE), G("PARKING_AREA", "314", TRUE),
+   G("PARKING_AREA_LEFT", "314-10", TRUE), G("PARKING_AREA_RIGHT", "314-20", TRUE),
+   G("PARKING_AREA_RIGHT_LEFT", "314-30", TRUE), G("TRAFFIC_CALMED_AREA_START", "325.1", TRUE),
+   G("TRAFFIC_CALMED_AREA_END", "325.2", TRUE), G("TUNNEL", "327", TRUE), G("EMERGENCY_STOP", "328", FALSE),
+   G("INTERSTATE_START", "330.1", TRUE), G("INTERSTATE_END", "330.2", TRUE), G("HIGHWAY_START", "331.1", TRUE),
+   G("HIGHWAY_END", "331.2", TRUE), G("HIGHWAY_EXIT_WITH_PLACE_NAME", "332", TRUE), G("EXIT_ROUTE", "332.1", TRUE),
+   G("HIGHWAY_EXIT", "333", TRUE), G("EXIT_BUILT_UP", "333-21", TRUE), G("EXIT_GENERAL", "333-22", TRUE),
+   G("PEDESTRIANS_CROSSING", "350", TRUE), G("WATER_PROTECTION_ZONE", "354", TRUE),
+   G("TRAFFIC_ASSISTANTS", "356", TRUE), G("DEAD_END", "357", TRUE), G("POLICE", "363", TRUE),
+   G("EMERGENCY_CALL_STATION", "365-51", TRUE), G("GAS_STATION", "365-52", TRUE),
+   G("CAMP_AND_CARAVAN_SITE", "365-60", TRUE), G("ATTRACTION_POINT", "386.1", TRUE),
+   G("TOURISTIC_ROUTE", "386.2", TRUE), G("NEARBY_ATTRACTION_POINT", "386.3", TRUE),
+   G("HIGHWAY_INTERSECTION", "406-50", TRUE), G("DIRECTION_ARROW_SIGN_MULTI", "418-20", TRUE),
+   G("DIRECTION_ARROW_SIGN_SINGLE", "419-20", TRUE), G("DIRECTION_SIGN_CONSOLIDATED", "434-50", TRUE),
+   G("EXPRESSWAY_ARROW_DIRECTION", "430-20", TRUE), G("ARROW_SIGN_POST_POINT_OF_INTEREST_LEFT", "432-10", TRUE),
+   G("STATION", "432-20", TRUE), G("GUIDE_SIGN_TABLE", "434", TRUE), G("ADVANCE_DIRECTION", "438", TRUE),
+   G("DIRECTIONS_SIGN", "439", TRUE), G("EXPRESSWAY_ENTRANCE_DIRECTIONS", "440", TRUE),
+   G("INTERSTATE_ANNOUNCEMENT", "448", TRUE), G("INTERSTATE_ADVANCE_DIRECTION", "449", TRUE),
+   G("HIGHWAY_EXIT_AHEAD_100_METER", "450-50", TRUE), G("HIGHWAY_EXIT_AHEAD_200_METER", "450-51", TRUE),
+   G("HIGHWAY_EXIT_AHEAD_300_METER", "450-52", TRUE), G("EXPRESSWAY_EXIT_100_METRES", "450-53", TRUE),
+   G("EXPRESSWAY_EXIT_200_METRES", "450-54", TRUE), G("EXPRESSWAY_EXIT_300_METRES", "450-55", TRUE),
+   G("INTERSTATE_DISTANCE", "453", TRUE), G("DETOUR_SKETCH", "458", TRUE), G("DETOUR_STRAIGHT", "455.1-30", TRUE),
+   G("DETOUR_ON_DEMAND_LEFT", "460-10", TRUE), G("DETOUR_ON_DEMAND_GET_IN_LEFT_LANE", "460-12", TRUE),
+   G("DETOUR_ON_DEMAND_ANNOUNCEMENT_RIGHT", "460-20", TRUE), G("DETOUR_ON_DEMAND_RIGHT", "460-21", TRUE),
+   G("DETOUR_ON_DEMAND_GET_IN_RIGHT_LANE", "460-22", TRUE), G("DETOUR_ON_DEMAND_STRAIGHTFORWARD", "460-30", TRUE),
+   G("TRANSITION_3_LEFT_2_TRANSITIONED", "501-15", TRUE), G("TRANSITION_1_LEFT_1_STRAIGHT", "501-16", TRUE),
+   G("TRANSITION_3_RIGHT", "511-22", TRUE), G("LANE_BOARD_NO_OPPOSITE_TWO_LANES", "521-30", TRUE),
+   G("THREE_LANES_NO_ONCOMING_LANES", "521-31", TRUE), G("FOUR_LANES_NO_ONCOMING_LANES", "521-32", TRUE),
+   G("FIVE_LANES_NO_ONCOMING_LANES", "521-33", TRUE), G("LANE_BOARD_3_LANES_NO_OPPOSITE_WITH_SIGNS", "525", TRUE),
+   G("NARROWING_LANES_1_LANE_FROM_RIGHT", "531-10", TRUE), G("NARROWING_LANES_1_LANE_FROM_LEFT", "531-20", TRUE),
+   G("NARROWING_LANES_2_LANES_PLUS_1_LEFT", "531-21", TRUE),
+   G("FOUR_LANES_NO_ONCOMING_TRAFFIC_TWO_RIGHT_LANES_TURN_RIGHT", "533-22", TRUE),
+   G("MERGING_LANES_1_LANE_PLUS_1_LANE_RIGHT", "550-20", TRUE), G("BARRIER", "600-35", TRUE),
+   G("BARRIER_GATE_100_800", "600-30", TRUE), G("BARRIER_GATE_100_1200", "600-31", TRUE),
+   G("BARRIER_GATE_100_1600", "600-32", TRUE), G("BARRIER_GATE_250_1600", "600-34", TRUE),
+   G("BARRIER_GATE", "600-38", TRUE), G("ROAD_WARNING_POST_SCRAPER_BEACON_RIGHT", "605-10", TRUE),
+   G("ROAD_WARNING_POST_ARROW_BEACON_RIGHT", "605-11", TRUE),
+   G("ROAD_WARNING_POST_SCRAPER_BEACON_LEFT", "605-20", TRUE),
+   G("ROAD_WARNING_POST_SCRAPER_BEACON_ARROW_RIGHT", "605-21", TRUE),
+   G("ROAD_WARNING_POST_GUIDE_UP_THREE_ARROWS", "605-31", TRUE), G("DIRECTION_SIGN_LEFT_SINGLE", "625-10", TRUE),
+   G("DIRECTION_SIGN_LEFT_SMALL", "625-11", TRUE), G("DIRECTION_SIGN_LEFT_MEDIUM", "625-12", TRUE),
+   G("DIRECTION_SIGN_LEFT_LARGE", "625-13", TRUE), G("DIRECTION_SIGN_RIGHT_SINGLE", "625-20", TRUE),
+   G("DIRECTION_SIGN_RIGHT_SMALL", "625-21", TRUE), G("DIRECTION_SIGN_RIGHT_MEDIUM", "625-22", TRUE),
+   G("DIRECTION_SIGN_RIGHT_LARGE", "625-23", TRUE), G("WARNING_PANEL_RIGHT", "626-10", TRUE),
+   G("WARNING_PANEL_LEFT", "626-20", TRUE), G("WARNING_PANEL_STRAIGHT_BROAD", "626-30", TRUE),
+   G("WARNING_PANEL_STRAIGHT_HIGH", "626-31", TRUE), G("GUIDE_SILL_WITH_GUIDE_BEACON_RIGHT", "628-10", TRUE),
+   G("GUIDE_RAIL_WITH_GUIDE_BEACON_RIGHT", "629-10", TRUE), G("GUIDE_PANEL_WITH_GUIDE_BEACON_RIGHT", "629-20", TRUE),
+   G("GREEN_ARROW", "720", TRUE), G("ADDITION_LEFT_DIRECTION", "1000", TRUE),
+   G("ADDITION_LEFT_DIRECTION_1", "1000-10", TRUE), G("ADDITION_LEFT_DIRECTION_DANGER_POINT", "1000-11", TRUE),
+   G("ADDITION_RIGHT_DIRECTION_1", "1000-20", TRUE), G("ADDITION_RIGHT_DIRECTION_DANGER_POINT", "1000-21", TRUE),
+   G("ADDITION_BOTH_DIRECTIONS_HORIZONTAL", "1000-30", TRUE), G("ADDITION_BOTH_DIRECTIONS_VERTICAL", "1000-31", TRUE),
+   G("ADDITION_VALID_FOR_X_METERS", "1001-30", TRUE), G("ADDITION_VALID_FOR_X_KILOMETERS", "1001-31", TRUE),
+   G("ADDITION_LEFT_TURNING_PRIORITY_WITH_OPPOSITE_RIGHT_YIELD", "1002-10", TRUE),
+   G("ADDITION_LEFT_TRAFFIC_PRIORITY_WITH_STRAIGHT_RIGHT_YIELD", "1002-11", TRUE),
+   G("ADDITION_LEFT_TURNING_PRIORITY_WITH_OPPOSITE_YIELD", "1002-12", TRUE),
+   G("ADDITION_LEFT_TURNING_PRIORITY_WITH_RIGHT_YIELD", "1002-13", TRUE),
+   G("ADDITION_LEFT_TRAFFIC_PRIORITY_WITH_STRAIGHT_YIELD", "1002-14", TRUE),
+   G("ADDITION_RIGHT_TURNING_PRIORITY_WITH_OPPOSITE_LEFT_YIELD", "1002-20", TRUE),
+   G("ADDITION_RIGHT_TRAFFIC_PRIORITY_WITH_STRAIGHT_LEFT_YIELD", "1002-21", TRUE),
+   G("ADDITION_RIGHT_TURNING_PRIORITY_WITH_OPPOSITE_YIELD", "1002-22", TRUE),
+   G("ADDITION_RIGHT_TURNING_PRIORITY_WITH_LEFT_YIELD", "1002-23", TRUE),
+   G("ADDITION_RIGHT_TRAFFIC_PRIORITY_WITH_STRAIGHT_YIELD", "1002-24", TRUE),
+   G("ADDITION_VALID_IN_X_METERS", "1004-30", TRUE), G("ADDITION_VALID_IN_X_KILOMETERS", "1004-31", TRUE),
+   G("ADDITION_VALID_IN_200_KILOMETERS", "1004-32", TRUE), G("ADDITION_VALID_IN_400_METRES", "1004-33", TRUE),
+   G("ADDITION_VALID_IN_600_METRES", "1004-34", TRUE), G("ADDITION_VALID_IN_2_KILOMETERS", "1004-35", TRUE),
+   G("ADDITION_OIL_ON_ROAD", "1006-30", TRUE), G("ADDITION_SMOKE", "1006-31", TRUE),
+   G("ADDITION_LOOSE_GRAVEL", "1006-32", TRUE), G("ADDITION_BUILDING_SITE_EXIT", "1006-33", TRUE),
+   G("ADDITION_DAMAGED_ROAD", "1006-34", TRUE), G("ADDITION_DIRTY_ROAD", "1006-35", TRUE),
+   G("ADDITION_DANGER_OF_COLLISION", "1006-36", TRUE), G("ADDITION_TOAD_MIGRATION", "1006-37", TRUE),
+   G("ADDITION_DANGER_OF_CONGESTION", "1006-38", TRUE), G("ADDITION_RESTRICTED_VIEW_DUE_TO_TREES", "1006-39", TRUE),
+   G("DANGER_INDICATION_SMOKE", "1007-31", TRUE), G("ADDITION_CHILDREN_PLAYING_ON_ROAD", "1010-10", TRUE),
+   G("ADDITION_WINTER_SPORTS_ALLOWED", "1010-11", TRUE),
+   G("ADDITION_TRAILERS_ALLOWED_TO_PARK_MORE_THAN_14_DAYS", "1010-12", TRUE),
+   G("ADDITION_CARAVANS_ALLOWED_TO_PARK_MORE_THAN_14_DAYS", "1010-13", TRUE),
+   G("ADDITION_ROLLING_HIGHWAY", "1010-14", TRUE), G("ADDITION_LOADING_AREA", "1012-30", TRUE),
+   G("ADDITION_END", "1012-31", TRUE), G("ADDITION_GET_OFF_BICYCLES", "1012-32", TRUE),
+   G("ADDITION_NO_MOPEDS", "1012-33", TRUE), G("ADDITION_GREEN_WAVE_AT_KM_H", "1012-34", TRUE),
+   G("ADDITION_STOP_HERE_AT_RED", "1012-35", TRUE), G("ADDITION_NOISE_CONTROL", "1012-36", TRUE),
+   G("ADDITION_INFLOW_REGULATION", "1012-37", TRUE), G("ADDITION_SECONDARY_LANE", "1012-38", TRUE),
+   G("ADDITION_SCHOOL", "1012-50", TRUE), G("ADDITION_KINDERGARTEN", "1012-51", TRUE),
+   G("ADDITION_RETIREMENT_HOME", "1012-52", TRUE), G("ADDITION_HOSPITAL", "1012-53", TRUE),
+   G("ADDITION_RESIDENTS_PERMITTED", "1020-30", TRUE), G("ADDITION_BICYCLES_PERMITTED", "1022-10", TRUE),
+   G("ADDITION_CARS_PERMITTED", "1024-10", TRUE), G("ADDITION_AGRICULTURE_PERMITTED", "1026-36", TRUE),
+   G("ADDITION_FOREST_PERMITTED", "1026-37", TRUE), G("ADDITION_AGRICULTURE_FOREST_PERMITTED", "1026-38", TRUE),
+   G("ADDITION_GREEN_STICKER_PERMITTED", "1031-52", TRUE), G("ADDITION_TIME_PERIOD_PERMITTED", "1040-30", TRUE),
+   G("ADDITION_MOTOR_VEHICLES_ALLOWED_MASS_3_5_TONS", "1048-12", TRUE),
+   G("ADDITION_MIN_MASS_3_5_TONS", "1049-13", TRUE), G("ADDITION_NO_WATER_POLLUTANTS_LOADED", "1052-31", TRUE),
+   G("ALLOWED_MASS_7_5_TONS", "1053-33", TRUE), G("ADDITION_VALID_ON_SHOULDER", "1053-34", TRUE),
+   G("ADDITION_VALID_WHEN_WET", "1053-35", TRUE), G("LINE_MARKING_MISSING", "2113", TRUE), G("UNKNOWN", "", TRUE) >>
 (* (TrafficSignIDZamunda is an alias of TrafficSignIDGermany.)  Enum class the XML reader can name for a country code (the format stores only the value; the benchmark id the country) *)
 CountryClass == [ZAM |-> {"TrafficSignIDGermany"}, DEU |-> {"TrafficSignIDGermany"},
                  USA |-> {"TrafficSignIDUsa"}, ESP |-> {"TrafficSignIDSpain"}, CHN |-> {"TrafficSignIDChina"}]
@@ -193,7 +315,7 @@ KindOfShape(sh) == IF sh.k = "group" THEN "group:" \o JoinS([i \in DOMAIN sh.par
 
 (* ------------------------------ leaves ---------------------------------------------------------------------- *)
 Lf(K, Y, P, v) == << <<K, Y, P, v>> >>
-R(tok) == IF tok = "default0" THEN "r0" ELSE "r"
+R(tok) == IF tok = "default0" THEN "r0" ELSE IF tok = "derived" THEN "rD" ELSE "r"   \* rD: any real is acceptable
 Re(K, Y, P, tok) == Lf(K, Y, P, R(tok))                                   \* a real-valued leaf
 XY(K, Y, P, x, y) == Re(K, Y \o "/x", P, x) \o Re(K, Y \o "/y", P, y)
 
@@ -272,7 +394,10 @@ LaneletLeaves(la) ==
   \o AdjLeaves(K, Y, "adjacentLeft", la.adjL) \o AdjLeaves(K, Y, "adjacentRight", la.adjR)
   \o Lf(K, Y, "stopLine.present", I2S(Len(la.stop)))
   \o Cat([i \in DOMAIN la.stop |->
-            XY(K, Y \o "/s", "stopLine", la.geo, la.geo) \o XY(K, Y \o "/e", "stopLine", la.geo, la.geo)
+            Lf(K, Y, "stopLine.hasPoints", IF la.stop[i].pts = 0 THEN "0" ELSE "1")
+            \o (IF la.stop[i].pts = 0 THEN <<>>
+                ELSE LET tk == IF la.stop[i].pts = 2 THEN "derived" ELSE la.geo IN        \* 2: put there by the XML reader
+                     XY(K, Y \o "/s", "stopLine", tk, tk) \o XY(K, Y \o "/e", "stopLine", tk, tk))
             \o Lf(K, Y, "stopLine.lineMarking", la.stop[i].lm)
             \o Lf(K, Y, "stopLine.trafficSignRef", IdStr(la.stop[i].sref))
             \o Lf(K, Y, "stopLine.trafficSignRef.isNone", I2S(la.stop[i].g.srefNone))
@@ -364,10 +489,15 @@ RBObstacle(o) == IF o.role \in {"static", "dynamic"} THEN [o EXCEPT !.init = Fil
 RBPP(p) == [p EXCEPT !.init = FillInitial(p.init)]
 (* expected descriptor after write -> read, either format: identity except the initial-state default *)
 ReadBack(d) == [d EXCEPT !.obstacles = Map(d.obstacles, RBObstacle), !.pps = Map(d.pps, RBPP)]
-ReadBackXml(d) == ReadBack(d)
 ReadBackPb(d)  == ReadBack(d)
+(* XML 2020a: a stop line written without points lies at the end of its lanelet - the reader puts it there (XSD 296: *)
+(* point minOccurs=0); which coordinates is not asserted (derived from the lanelet bounds).                        *)
+RBStop(s) == IF s.pts = 0 THEN [s EXCEPT !.pts = 2] ELSE s
+RBLaneletXml(la) == [la EXCEPT !.stop = Map(la.stop, RBStop)]
+ReadBackXml(d) == [ReadBack(d) EXCEPT !.lanelets = Map(d.lanelets, RBLaneletXml)]
+ReadBackOf(fmt, d) == IF fmt = "xml" THEN ReadBackXml(d) ELSE ReadBackPb(d)
 CarriedLeaves(fmt, d) == SelectSeq(Leaves(d), LAMBDA l : Carried(fmt, l))
-Expected(fmt, d) == CarriedLeaves(fmt, ReadBack(d))
+Expected(fmt, d) == CarriedLeaves(fmt, ReadBackOf(fmt, d))
 
 (* tolerance rule: closeness class every real leaf must come back in *)
 RealClasses == {"re:exact", "re:within_tol", "re:out_of_tol", "re:zero", "re:other"}
@@ -376,22 +506,28 @@ NormLeaf(fmt, l) == IF l[4] \in AllowedReal(fmt) THEN <<l[1], l[2], l[3], "r">>
                     ELSE IF l[4] = "re:zero" THEN <<l[1], l[2], l[3], "r0">> ELSE l
 Observed(fmt, back) == LET sel == SelectSeq(back, LAMBDA l : Carried(fmt, l)) IN [i \in DOMAIN sel |-> NormLeaf(fmt, sel[i])]
 SameLeaf(a, b) == a[1] = b[1] /\ a[2] = b[2] /\ a[3] = b[3]
-(* name of the first leaf on which the observed read-back differs from the expected one; "" if none *)
-Diff(fmt, exp, back) ==
+Match(e, o) == e = o \/ (e[4] = "rD" /\ SameLeaf(e, o) /\ o[4] \in {"r", "r0"} \cup RealClasses)
+MaxClauses == 8
+(* the clauses of ALL leaves on which the observed read-back differs from the expected one (each clause once, at most *)
+(* MaxClauses, in leaf order): a differing value, a leaf that was dropped, a leaf the original does not have          *)
+Diffs(fmt, exp, back) ==
   LET obs == Observed(fmt, back)
       raw == SelectSeq(back, LAMBDA l : Carried(fmt, l))
-      n   == IF Len(exp) < Len(obs) THEN Len(exp) ELSE Len(obs)
-      bad == {i \in 1..n : exp[i] # obs[i]}
       pre == IF fmt = "xml" THEN "C01." ELSE "C02."
       tol == IF fmt = "xml" THEN "Tolerance/" ELSE "BitIdentical/"
       nm(l) == l[1] \o "." \o l[3]
-  IN IF bad = {} /\ Len(exp) = Len(obs) THEN ""
-     ELSE IF bad = {} THEN (IF Len(exp) > Len(obs) THEN pre \o "Leaf/" \o nm(exp[n + 1]) ELSE pre \o "Leaf/" \o nm(obs[n + 1]))
-     ELSE LET i == CHOOSE j \in bad : \A r \in bad : j <= r IN
-          IF SameLeaf(exp[i], obs[i])
-          THEN (IF exp[i][4] \in {"r", "r0"} /\ raw[i][4] \in RealClasses THEN pre \o tol \o nm(exp[i]) ELSE pre \o "Leaf/" \o nm(exp[i]))
-          ELSE IF ~\E j \in DOMAIN obs : SameLeaf(exp[i], obs[j]) THEN pre \o "Leaf/" \o nm(exp[i])     \* dropped
-          ELSE pre \o "Leaf/" \o nm(obs[i])                                                                \* not in the original
+      valueClause(e, r) == IF e[4] \in {"r", "r0", "rD"} /\ r[4] \in RealClasses THEN pre \o tol \o nm(e) ELSE pre \o "Leaf/" \o nm(e)
+      aligned == Len(exp) = Len(obs) /\ \A i \in DOMAIN exp : SameLeaf(exp[i], obs[i])
+      cl == IF aligned
+            THEN [i \in DOMAIN exp |-> IF Match(exp[i], obs[i]) THEN "" ELSE valueClause(exp[i], raw[i])]
+            ELSE [i \in DOMAIN exp |-> LET S == {j \in DOMAIN obs : SameLeaf(exp[i], obs[j])} IN
+                                       IF S = {} THEN pre \o "Leaf/" \o nm(exp[i])                         \* dropped
+                                       ELSE LET j == CHOOSE j \in S : TRUE IN
+                                            IF Match(exp[i], obs[j]) THEN "" ELSE valueClause(exp[i], raw[j])]
+                 \o [j \in DOMAIN obs |-> IF \E i \in DOMAIN exp : SameLeaf(exp[i], obs[j]) THEN ""
+                                          ELSE pre \o "Leaf/" \o nm(obs[j])]                              \* not in the original
+      first == {i \in DOMAIN cl : cl[i] # "" /\ \A j \in 1..(i - 1) : cl[j] # cl[i]}
+  IN IF exp = obs THEN {} ELSE {cl[i] : i \in {i \in first : Cardinality({j \in first : j < i}) < MaxClauses}}
 
 (* ------------------------------ state classes ------------------------------------------------------------------ *)
 (* which attributes a read-back state must populate (the statement; class identity is not required) *)
@@ -442,7 +578,7 @@ WellFormed(d) ==
        /\ la.nv >= 2 /\ Range(la.pred) \cup Range(la.succ) \subseteq LaneletIds(d)
        /\ \A a \in Range(la.adjL) \cup Range(la.adjR) : a.id \in LaneletIds(d)
        /\ Range(la.signs) \subseteq IdsOf(d.signs) /\ Range(la.lights) \subseteq IdsOf(d.lights)
-       /\ \A s \in Range(la.stop) : Range(s.sref) \subseteq IdsOf(d.signs) /\ Range(s.lref) \subseteq IdsOf(d.lights)
+       /\ \A s \in Range(la.stop) : Range(s.sref) \subseteq IdsOf(d.signs) /\ Range(s.lref) \subseteq IdsOf(d.lights) /\ s.pts \in {0, 1}
   /\ \A i \in DOMAIN d.signs : Len(d.signs[i].els) >= 1 /\ Len(d.signs[i].pos) = 1 /\ Range(d.signs[i].first) \subseteq LaneletIds(d)
   /\ \A i \in DOMAIN d.lights : /\ Len(d.lights[i].cyc) >= 1 /\ Len(d.lights[i].pos) = 1 /\ d.lights[i].off >= 0
                                 /\ \A c \in Range(d.lights[i].cyc) : c.d >= 1
@@ -605,8 +741,9 @@ LaneletDoc(la) ==
      \o BoundDoc(p \o <<"leftBound">>, la, la.lml) \o BoundDoc(p \o <<"rightBound">>, la, la.lmr)
      \o refs("predecessor", la.pred) \o refs("successor", la.succ) \o AdjDoc(p \o <<"adjacentLeft">>, la.adjL) \o AdjDoc(p \o <<"adjacentRight">>, la.adjR)
      \o Cat([i \in DOMAIN la.stop |-> LET q == p \o <<"stopLine">>  s == la.stop[i] IN
-               El(q, <<"point", "point", "lineMarking">> \o Rep("trafficSignRef", n(s.sref)) \o Rep("trafficLightRef", n(s.lref)))
-               \o PointDoc(q \o <<"point">>, la.geo, la.geo) \o Word(q \o <<"lineMarking">>, XmlVal(LineMarkingT, s.lm))
+               El(q, (IF s.pts = 0 THEN <<>> ELSE <<"point", "point">>) \o <<"lineMarking">> \o Rep("trafficSignRef", n(s.sref))
+                     \o Rep("trafficLightRef", n(s.lref)))
+               \o (IF s.pts = 0 THEN <<>> ELSE PointDoc(q \o <<"point">>, la.geo, la.geo)) \o Word(q \o <<"lineMarking">>, XmlVal(LineMarkingT, s.lm))
                \o Cat([j \in DOMAIN s.sref |-> RefEl(q \o <<"trafficSignRef">>, s.sref[j])])
                \o Cat([j \in DOMAIN s.lref |-> RefEl(q \o <<"trafficLightRef">>, s.lref[j])])])
      \o Cat([i \in DOMAIN ty |-> Word(p \o <<"laneletType">>, XmlVal(LaneletTypeT, ty[i]))])
